@@ -1,5 +1,5 @@
 """Which contracts decide which property."""
-from . import indexing, bases, align, axes, metadata, reshape, dataset, missing, transform, join, wellformed, regroup, arith, interp, dsops
+from . import indexing, bases, align, axes, metadata, reshape, dataset, missing, transform, join, wellformed, regroup, arith, interp, dsops, serial
 
 GLOBAL_ASSUMPTIONS = [
     "NumPy implements the contracts in dverif/symnp.py (validated by sampling against the installed NumPy, never proved)",
@@ -57,6 +57,13 @@ PROPERTIES = {
         "min_obligations": 0,
         "min_bounded_evaluations": 2000,
         "explanation": "bounded stand-in only: a differential statement between the Dataset layer and the per-variable DimArray operations (which are under contract in C01-C12, C17, C18), evaluated on the real code over an enumerated family; no obligation is discharged symbolically and none is counted as proved.",
+    },
+    "C19": {
+        "contracts": [serial.JsonRoundTrip],
+        "level": "other",
+        "min_obligations": 0,
+        "min_bounded_evaluations": 1000,
+        "explanation": "JSON half only, as a bounded stand-in (tolist / json.dumps / json.loads are Python lists and text, outside the symbolic engine's reach); the netCDF half is not decidable in this sandbox (netCDF4 is not installed: dimarray.io.nc cannot be imported) and NO claim is made about it.",
     },
     "C05": {
         "contracts": [wellformed.Construct, wellformed.Helpers, wellformed.AxesSetter, wellformed.AxisCache, wellformed.NestedDict, wellformed.MultiAxisCache] +
